@@ -56,6 +56,9 @@ pub fn opt_exp_spec() -> BoxedStrategy<Option<ExpSpec>> {
 
 pub fn arb_exp(u: &mut arbitrary::Unstructured) -> ExpSpec {
     let sel: u8 = u.arbitrary().unwrap_or(0);
+    if sel == 255 {
+        return if u.arbitrary::<bool>().unwrap_or(false) { ExpSpec::Height(i32::MAX) } else { ExpSpec::Time(i64::MAX) };
+    }
     match sel % 5 {
         0 => ExpSpec::Never,
         1 | 2 => ExpSpec::Height(u.int_in_range(-2i32..=8).unwrap_or(0)),
